@@ -229,6 +229,11 @@ def broker_canon_for(pid):
             if not everything:
                 res = [m for m in res if m.split(" ", 1)[0] in keep
                        or (m.startswith("callFunctionReply ") and m.endswith(" invalidService") and "callFunctionReply:invalidService" in keep)]
+            if q.startswith(BROKER_END_EVENTS):
+                # the clean-up of a connection walks several hash maps and sets (its objects, its calls in both
+                # directions, its subscriptions); in which order the different kinds of notification reach a third
+                # connection depends on their iteration order, which no property speaks about
+                res = sorted(res)
             if res:
                 out.append(conn + ": " + " ; ".join(res))
         return " | ".join(out)
@@ -550,14 +555,18 @@ PROPS = {
                            canon=None, extra_args=["/repo"],
                            rule="sources: token soups over the grammar's alphabet (keywords, punctuation, literals, comments, odd white space, "
                                 "NUL, BOM, astral characters), mutations of every .aldrin file of the repository (character edits, spliced "
-                                "lines, duplicated tails; the 83 files also unmodified), generated valid schemas with adversarial markdown in "
+                                "lines, duplicated tails, one identifier renamed throughout - also to names of underscores only; the 83 files also "
+                                "unmodified), small random type graphs (newtypes, structs, enums referring to each other, used as map / set keys: "
+                                "cycles with and without indirection), generated valid schemas with adversarial markdown in "
                                 "every doc position (all link forms, carriage returns, tabs, multi-byte characters next to brackets), some "
                                 "damaged; imports provided as valid schemas, as the source itself (cycles), as garbage, or missing. The whole "
                                 "pipeline (parse, render every error and warning with two renderer configurations, format, generate Rust "
-                                "with introspection when there are no errors) runs twice under catch_unwind; a panic, a different set of "
+                                "with introspection when there are no errors) runs twice under catch_unwind, watched by a thread that reports the "
+                                "input if a case does not come back within 30 s; a panic, a different set of "
                                 "diagnostics (title lines as multisets), different formatted text or generated code is a violation. Lines for "
                                 "the model: sast (grammar model: accept / reject and AST of the main schema) and slc (every evaluation of the "
-                                "doc-link position arithmetic recorded by the parser's verif-hooks feature)"),
+                                "doc-link position arithmetic recorded by the parser's verif-hooks feature); sources with non-ASCII letters outside "
+                                "comments and strings are not put to the grammar model (ASCII identifiers only)"),
         "trusted": ["that comrak reports columns >= 1 and start <= end (every column 0 seen is reported as a violation)",
                     "which schema a cross-schema diagnostic names first follows hash-map order and differs between runs; compared are "
                     "title lines (kind, names, ids)"],
